@@ -66,6 +66,8 @@ pub struct RunReport {
     pub counters: BTreeMap<String, u64>,
     pub sim_ms: u64,
     pub sample: Option<Value>,
+    /// an equivalent, more direct plan reproducing the reported violation (e.g. one explicit fault set)
+    pub narrowed_plan: Option<Value>,
 }
 
 impl RunReport {
@@ -320,7 +322,14 @@ pub fn worker_main(engine: &dyn Engine, a: WorkerArgs) {
             let known = a.known.matches(v).is_some();
             let (min_plan, steps) = if !known && minimised < 2 {
                 minimised += 1;
-                let (p, s) = minimise(engine, &plan, &a.focus, v, 30.0);
+                let mut start = plan.clone();
+                if let Some(np) = &rep.narrowed_plan {
+                    let r2 = run_caught(engine, np, &a.focus);
+                    if r2.violations.iter().any(|x| x.clause == v.clause && x.site == v.site) {
+                        start = np.clone();
+                    }
+                }
+                let (p, s) = minimise(engine, &start, &a.focus, v, 30.0);
                 (Some(p), s)
             } else {
                 (None, 0)
